@@ -16,7 +16,7 @@ FACT_CLAUSES = {"C06": {"value_eq", "grad_eq", "sparse_eq"},
 def run(prop, tier, seed):
     ck = CK.Check(prop, tier, seed)
     nper = 40 if tier == "quick" else 400
-    nrep = 8 if tier == "quick" else 80
+    nrep = 40 if tier == "quick" else 300
     ck.cov["rule"] = (
         "exact vectors: (datafit, accessor, lattice point) with n=3 samples, integer/half-integer data, "
         "sample weights in {0..3}, Huber residuals inside/on/beyond delta, exponential losses at z = k ln 2 "
